@@ -58,7 +58,7 @@ fn reader(c: &Cache, seed: u64, tid: u64, ops: usize) -> u64 {
     for _ in 0..ops {
         let k = rng.below(18) as u32;
         probe.id = KeyId(k);
-        match rng.below(14) {
+        match rng.below(19) {
             0 => acc += c.peek(&KeyId(k)).map(|v| v.heap as u64).unwrap_or(7),
             1 => acc += c.peek(&probe).map(|v| v.heap as u64).unwrap_or(7),
             2 => acc += c.peek_entry(&KeyId(k)).map(|(k, _)| k.id.0 as u64).unwrap_or(3),
@@ -83,6 +83,11 @@ fn reader(c: &Cache, seed: u64, tid: u64, ops: usize) -> u64 {
             }
             11 => acc += c.values().map(|v| v.heap as u64).sum::<u64>(),
             12 => acc += format!("{:?}", c).len() as u64,
+            13 => acc += format!("{:#?}", c).len() as u64,
+            14 => acc += c.iter().count() as u64,
+            15 => acc += c.keys().last().map(|k| k.id.0 as u64).unwrap_or(2),
+            16 => acc += c.values().nth(2).map(|v| v.heap as u64).unwrap_or(2),
+            17 => acc += c.iter().rev().nth(1).map(|(k, _)| k.id.0 as u64).unwrap_or(2) + c.iter().size_hint().0 as u64,
             _ => {
                 let cl = c.clone();
                 acc += cl.len() as u64;
